@@ -321,6 +321,12 @@ def expect(state, m):
         return ex
 
     ex.conserve = k in MOVE_SWAP
+    if _dups(sids) or None in sids:
+        # story IDs are not unique (or a story has no ID): outside the stated domain of
+        # C01-C06 - only conservation is judged
+        ex.degenerate = True
+        ex.classes.append('duplicate-story-ids-in-running-order')
+        return ex
 
     # ------------------------------------------------------------ story level
     if m.level == 'story':
